@@ -207,6 +207,15 @@ func discharge(query string, dir, name string, timeoutS int, all bool) (SolverRe
 	return best, results
 }
 
+// quickSolve runs z3-new alone with a short limit (vacuity guards: only `unsat` matters).
+func quickSolve(query string, dir, name string, timeoutS int) SolverResult {
+	file := filepath.Join(dir, sanitizeFile(name)+".smt2")
+	if err := os.WriteFile(file, []byte(query), 0o644); err != nil {
+		return SolverResult{Result: "error", Raw: err.Error()}
+	}
+	return runSolver(context.Background(), solvers[0], file, timeoutS)
+}
+
 func sanitizeFile(s string) string {
 	r := strings.NewReplacer("/", "_", "#", "-", ":", "-", "[", "_", "]", "_", "@", "_", ",", "_", " ", "_", "*", "P", "(", "_", ")", "_")
 	s = r.Replace(s)
